@@ -347,9 +347,17 @@ def _interleaved(ctx, stride, max_schedules):
     import ecdsa.numbertheory as NM
     jobs = _interleaved_jobs()
     for k, f in jobs.items():
-        r = f()
-        if r[1] is not True or r[3] is not True or r[4] != "BadSignatureError":
-            raise RuntimeError("sequential job of the interleaved unit does not verify: the ordinary units report that")
+        ctx.ev()
+        try:
+            r = f()
+        except Exception as e:
+            ctx.fail("interleaved/sequential-job-exception/%s" % exc_sig(e), {"kind": "interleaved", "job": k}, repr(e)[:300])
+            return
+        if r[1] is not True or r[3] is not True:
+            ctx.fail("interleaved/sequential-job-own-signature-not-verified", {"kind": "interleaved", "job": k}, repr(r)[:300])
+            return
+        if r[4] != "BadSignatureError":
+            raise RuntimeError("sequential job of the interleaved unit accepts a signature for another message (C02's business)")
     interleaved_pure(ctx, "sign-verify", [K, E, EL, UM, RF, DM, NM], jobs, stride, second_counts=(None, 40), max_schedules=max_schedules)
 
 
@@ -411,10 +419,18 @@ def units(tier, seed):
     toys = list(gen.TOY_PRIME) + ["t13-legacy", "t23a-legacy", "t251a-legacy", "t17x-legacy"]
     for i in range(4):
         out.append(("hyp-toy", {"names": toys[i::4], "examples": 2500 if q else 30000}))
+    out.append(("faults", {"jobset": 'keys', "arg": 'NIST192p', "examples": 40 if tier == "quick" else 1500, "triples": 400 if tier == "quick" else 20000}))
+    out.append(("faults", {"jobset": 'keys', "arg": 'SECP160r1', "examples": 40 if tier == "quick" else 1500, "triples": 400 if tier == "quick" else 20000}))
+    out.append(("faults", {"jobset": 'keys', "arg": 't23a', "examples": 40 if tier == "quick" else 1500, "triples": 400 if tier == "quick" else 20000}))
+    out.append(("faults", {"jobset": 'keys', "arg": 'NIST256p', "examples": 40 if tier == "quick" else 1500, "triples": 400 if tier == "quick" else 20000}))
     return out
 
 
 def run_unit(ctx, name, **kw):
+    if name == "faults":
+        from . import faults
+        faults.run_set(ctx, **kw)
+        return
     if name == "interleaved":
         _interleaved(ctx, kw["stride"], kw["max"])
         return
@@ -450,6 +466,10 @@ def run_unit(ctx, name, **kw):
 
 
 def replay(ctx, case):
+    if case.get("kind") == "fault-history":
+        from . import faults
+        faults.replay(ctx, case)
+        return
     if case.get("kind") == "interleaved":
         _interleaved(ctx, 1, 2500)
         return
